@@ -34,6 +34,11 @@ def corpus():
     out.append({"k": "events", "ev": [], "noise": 0})
     out += [{"k": "ops", "op": op, "a": [0, 54], "b": [597, 770], "bk": "frac"} for op in ("rdivmod", "rtruediv", "rmod", "mul")]   # zero divisor: ZeroDivisionError is the right answer
     out.append({"k": "events", "ev": [[576, [False, 90, 0]], [0, [False, 180, 0]], [576, [False, 1, 0]]], "noise": 0})      # written out of order, repeated beat
+    # exactness of % and divmod with small operands of either sign (measures, halves, quarters)
+    for op in ("mod", "divmod", "rmod"):
+        for k in range(-10, 11):
+            for bi in (-4, -3, -1, 2, 3):
+                out.append({"k": "ops", "op": op, "a": [k, 4] if op != "rmod" or k else [1, 4], "b": [bi, 1], "bk": "int"})
     out.append({"k": "evstr", "s": "0.000=60.000,\n4.000=120"})
     out.append({"k": "evstr", "s": " \n "})
     out.append({"k": "evstr", "s": None})
